@@ -91,11 +91,12 @@ static dmsg::Result judge_string(Ctx& ctx, const std::string& s, bool derived) {
   if (z.oc >= 2) ctx.fail(key + "/azi", "DecodeAzimuth: foreign exception or crash: " + z.what, F("crash", "DecodeAzimuth"));
   if (g.verdict == dmsg::SILENT || a.oc >= 2 || z.oc >= 2) return g;
   bool wantA = g.verdict == dmsg::ACCEPT && g.flag == dmsg::NONE, wantZ = g.verdict == dmsg::ACCEPT && g.flag != dmsg::LATITUDE;
+  if (g.special) { z.oc = 0; wantZ = true; }                 // azimuth of nan/inf: accept or reject, both undocumented
   if (wantA != (a.oc == 0)) ctx.fail(key + "/angle", std::string("DecodeAngle ") + (a.oc == 0 ? "accepted" : "rejected") + " a string that is " + (wantA ? "a legal arc angle" : "not a legal arc angle"), F(wantA ? "valid-rejected" : "invalid-accepted", "DecodeAngle"));
   else if (wantA && !close_value(a.v, g.value, g.mag, g.special)) ctx.fail(key + "/angle", "DecodeAngle = " + fx(a.v) + " want " + mc::fmtl(g.value), F("value", "DecodeAngle"));
   if (wantZ != (z.oc == 0)) ctx.fail(key + "/azi", std::string("DecodeAzimuth ") + (z.oc == 0 ? "accepted" : "rejected") + " a string that is " + (wantZ ? "a legal azimuth" : "not a legal azimuth"), F(wantZ ? "valid-rejected" : "invalid-accepted", "DecodeAzimuth"));
   else if (wantZ) {
-    if (g.special || std::isinf((double)g.value) || std::isnan((double)g.value)) { if (!std::isnan(z.v)) ctx.fail(key + "/azi", "DecodeAzimuth of a non-finite value = " + fx(z.v) + ", want NaN", F("value", "DecodeAzimuth")); }
+    if (g.special || std::isinf((double)g.value) || std::isnan((double)g.value)) ctx.count("doc_silent_azimuth_of_nonfinite");     // "reduced to [-180,180]" says nothing about inf/nan
     else {
       long double d = remainderl((long double)z.v - g.value, 360.0L);
       long double tol = 4 * (long double)EPS * std::max(g.mag, 360.0L);
